@@ -26,7 +26,8 @@ def band : P String := do
     Band.neg a, Band.add a a2, Band.sub' a a2, Band.smul a s, Band.sdiv a s,
     Band.add a a2, Band.sub' a a2, Band.smul a s, Band.sdiv a s, Band.addS a s, Band.subS a s,
     Band.fillBand a bandno x]
-  let parts := [wRes Wire.wr (Band.get a i j)] ++ run a ++ run a2 ++ ar.map (wRes wBand)
+  let extra : List (Res (Band K)) := [Band.set a i j x, Band.fill a x, Band.resize a (n + i % 2) ((m1 + j) % (n + 1)) m2]
+  let parts := [wRes Wire.wr (Band.get a i j)] ++ run a ++ run a2 ++ ar.map (wRes wBand) ++ extra.map (wRes wBand)
   pure (" ".intercalate parts)
 
 def exec (op : String) : P (Option String) := do
